@@ -7,6 +7,8 @@
 #include "rkcommon/math/vec.h"
 
 #include <cmath>
+#include <csetjmp>
+#include <csignal>
 #include <cstdint>
 #include <limits>
 #include <set>
@@ -487,6 +489,52 @@ inline uint64_t ipow(uint64_t a, int k)
   return r;
 }
 
+// An integer division fault inside the code under test (SIGFPE) is reported for exactly the tuple
+// that raised it and the enumeration continues (the handler jumps back into guarded()).
+inline sigjmp_buf &fpe_jmp()
+{
+  static sigjmp_buf b;
+  return b;
+}
+inline volatile int &fpe_armed()
+{
+  static volatile int a = 0;
+  return a;
+}
+inline void fpe_handler(int)
+{
+  if (fpe_armed()) {
+    fpe_armed() = 0;
+    siglongjmp(fpe_jmp(), 1);
+  }
+  signal(SIGFPE, SIG_DFL);
+  raise(SIGFPE);
+}
+inline void install_fpe_handler()
+{
+  struct sigaction sa;
+  memset(&sa, 0, sizeof sa);
+  sa.sa_handler = fpe_handler;
+  sa.sa_flags = SA_NODEFER;
+  sigaction(SIGFPE, &sa, nullptr);
+}
+template <class B>
+__attribute__((noinline)) void guarded(const int *d, Ctx &c)
+{
+  if (sigsetjmp(fpe_jmp(), 0) == 0) {
+    fpe_armed() = 1;
+    B::check(d, c);
+    fpe_armed() = 0;
+  } else {
+    c.trans++;
+    c.any_in_case = true;
+    if (c.verbose)
+      printf("  %s: %s SIGFPE raised inside the operation  VIOLATED\n", c.part, c.inputs().c_str());
+    vr::violation(c.item + "|" + c.part + "|SIGFPE (integer division fault) although every scalar operation of the definition is defined",
+        c.replay(), c.item + " " + c.part + " " + c.inputs() + " raised SIGFPE");
+  }
+}
+
 // B: struct with enum {K} and static void check(const int *digits, Ctx&)
 template <class B>
 void run_body(Ctx &c, uint64_t lo, uint64_t hi)
@@ -499,7 +547,7 @@ void run_body(Ctx &c, uint64_t lo, uint64_t hi)
   }
   for (uint64_t idx = lo; idx < hi; idx++) {
     c.begin_case(idx);
-    B::check(d, c);
+    guarded<B>(d, c);
     c.end_case();
     for (int i = 0; i < B::K; i++) {
       if (++d[i] < c.A)
